@@ -309,6 +309,20 @@ def _stmt(fnode, node):
     return best
 
 
+def _lv(l):
+    """the counting variable of a logged loop: the range variable, or the position of an enumerate() loop"""
+    v = l[2]
+    if isinstance(v, tuple) and v and isinstance(v[0], Rat):
+        v = v[0]
+    if isinstance(v, Rat) and isinstance(v.single_atom(), Sym) and "loopvar" in v.single_atom().flags:
+        return v
+    return None
+
+
+def _depth(v):
+    return int(v.single_atom().name.split("@")[1].rstrip("#"))
+
+
 def tile_only(rep, ix, cls, meth, wc, rule):
     """the four block updates of an assembly method tile the (i, j) block: rows [2 S_i + a n_i, + n_i), columns
     [2 S_j + b n_j, + n_j) for (a, b) in {0, 1}^2 (x slopes then y slopes of each sensor).  Used by C02 as the layout
@@ -321,10 +335,10 @@ def tile_only(rep, ix, cls, meth, wc, rule):
     loops = [l for l in I.loop_log if l[0] == meth.fq]
     lvs = []
     for l in loops:
-        v = l[2]
-        if isinstance(v, Rat) and isinstance(v.single_atom(), Sym) and vk(v) not in [vk(x) for x in lvs]:
+        v = _lv(l)
+        if v is not None and vk(v) not in [vk(x) for x in lvs]:
             lvs.append(v)
-    by_depth = sorted(lvs, key=lambda v: int(v.single_atom().name.split("@")[1]))
+    by_depth = sorted(lvs, key=_depth)
     if len(stores) != 4 or len(by_depth) < 3:
         rep.unknown(rule, meth.fq, "expected four block updates of self.covariance_matrix inside the (layer, i, j) loops, found %d" % len(stores),
                     meth.where())
@@ -372,10 +386,10 @@ def assembly_rules(rep, ix, cls, meth, wc, tuple_kinds, fun_kind):
     # loop variables: the innermost two are the pair (i, j)
     lvs = []
     for l in loops:
-        v = l[2]
-        if isinstance(v, Rat) and isinstance(v.single_atom(), Sym) and vk(v) not in [vk(x) for x in lvs]:
+        v = _lv(l)
+        if v is not None and vk(v) not in [vk(x) for x in lvs]:
             lvs.append(v)
-    by_depth = sorted(lvs, key=lambda v: int(v.single_atom().name.split("@")[1]))
+    by_depth = sorted(lvs, key=_depth)
     if len(by_depth) < 3:
         rep.unknown("tile", tag, "cannot identify the (layer, i, j) loops", meth.where())
         return
@@ -487,16 +501,16 @@ def assembly_rules(rep, ix, cls, meth, wc, tuple_kinds, fun_kind):
             rep.check(same_value(g_, w_), "pair-arguments", "%s: %s = %s" % (tag, names[k_], nf(w_, 80)),
                       "per-pair argument %s is %s" % (names[k_], nf(g_, 120)), meth.where())
     # lower: j <= i only
-    jl = [l for l in loops if vk(l[2]) == vk(wj)]
-    il = [l for l in loops if vk(l[2]) == vk(wi)]
+    jl = [l for l in loops if _lv(l) is not None and vk(_lv(l)) == vk(wj)]
+    il = [l for l in loops if _lv(l) is not None and vk(_lv(l)) == vk(wi)]
     okl = jl and il and isinstance(jl[0][3], RangeVal) and same_value(jl[0][3].lo, Rat.const(0)) and same_value(jl[0][3].hi, wi + 1) and \
         isinstance(il[0][3], RangeVal) and same_value(il[0][3].lo, Rat.const(0)) and same_value(il[0][3].hi, Rat.sym("self.n_wfs", ("attr",)))
     rep.check(bool(okl), "lower", tag + ": pairs j <= i of all sensors are filled (lower block triangle)",
               "pair loops are i in %r, j in %r" % (il[0][3] if il else None, jl[0][3] if jl else None), meth.where())
-    ll = [l for l in loops if vk(l[2]) == vk(layer)]
+    ll = [l for l in loops if _lv(l) is not None and vk(_lv(l)) == vk(layer)]
     rep.check(bool(ll) and isinstance(ll[0][3], RangeVal) and same_value(ll[0][3].hi, Rat.sym("self.n_layers", ("attr",))) and
               same_value(ll[0][3].lo, Rat.const(0)), "layers", tag + ": every layer contributes (range(n_layers))",
-              "layer loop is %r" % (ll[0][3] if ll else None), meth.where())
+              "layer loop runs over %s: the number of layers summed is not n_layers" % (repr(ll[0][3])[:120] if ll else None), meth.where())
     # zero-initialised float32 accumulator
     al = [c for c in I.call_log if c[0] == meth.fq and c[1].split(".")[-1] in ("zeros", "empty", "ones")]
     T = Rat.sym("self.total_subaps", ("attr",))
